@@ -34,6 +34,7 @@ from stone.backends.obj_c_helpers import (
     fmt_serial_class,
     fmt_serial_obj,
     fmt_signature,
+    fmt_string_body,
     fmt_type,
     fmt_validator,
     fmt_var,
@@ -1259,7 +1260,7 @@ class ObjCTypesBackend(ObjCBaseBackend):
         elif is_timestamp_type(data_type):
             serializer_args.append(('value', input_value))
             serializer_args.append(('dateFormat',
-                                    '@"{}"'.format(data_type.format)))
+                                    '@"{}"'.format(fmt_string_body(data_type.format))))
         else:
             serializer_args.append(('value', input_value))
 
@@ -1378,8 +1379,8 @@ class ObjCTypesBackend(ObjCBaseBackend):
                                     attrs = []
                                     for field in route_schema.fields:
                                         attr_key = field.name
-                                        attr_val = ("@\"{}\"".format(route.attrs
-                                                .get(attr_key)) if route.attrs
+                                        attr_val = ("@\"{}\"".format(fmt_string_body(
+                                                route.attrs.get(attr_key))) if route.attrs
                                             .get(attr_key)
                                             else 'nil')
                                         attrs.append('@\"{}\": {}'.format(
